@@ -336,6 +336,75 @@ def body_synth(case, ctx):
     check_tables(ctx, m, dofs, T, sig, (k['nodal'], k['edge'], k['facet'], k['interior']))
 
 
+# ------------------------------------------------------------------------------ numberings built by other constructors
+def special_cases(tier):
+    out = []
+    import itertools
+    for cls, dim in (('MeshLine1DG', 1), ('MeshQuad1DG', 2), ('MeshHex1DG', 3)):
+        for r in range(1, dim + 1):
+            for per in itertools.combinations(range(dim), r):
+                for n in ((4,) if tier == 'quick' else (4, 5, 6)):      # >= 3 cells per glued direction: entities are vertex SETS
+                    out.append(dict(kind='periodic', cls=cls, periodic=list(per), n=n))
+    for mk in ('line', 'tri', 'quad', 'tet', 'hex'):
+        for nb in (2, 3, 4):
+            out.append(dict(kind='composite_basis', mesh=mk, nbases=nb))
+    return out
+
+
+def body_special(c, ctx):
+    """(a) periodic tensor meshes (Mesh*1DG.init_tensor(..., periodic=[...])): opposite sides glued in one, two or three directions;
+    (b) CompositeBasis of two, three or four separate bases.  Numbers 0..N-1 all used, N as counted on the glued grid / as the
+    sum of the parts, blocks placed one after the other, no structurally empty row in a mass-type matrix."""
+    import skfem
+    from skfem import BilinearForm, CellBasis
+    ctx.nt(True)
+    ctx.cls('special:' + c['kind'])
+    sig = dict(kind=c['kind'])
+    if c['kind'] == 'periodic':
+        from skfem import mesh as skm
+        n, per = c['n'], c['periodic']
+        dim = {'MeshLine1DG': 1, 'MeshQuad1DG': 2, 'MeshHex1DG': 3}[c['cls']]
+        x = np.linspace(0.0, 1.0, n)
+        m = getattr(skm, c['cls']).init_tensor(*([x] * dim), periodic=per)
+        E1, E2 = {1: ('ElementLineP1', 'ElementLineP2'), 2: ('ElementQuad1', 'ElementQuad2'), 3: ('ElementHex1', 'ElementHex2')}[dim]
+        for name, pts in ((E1, n), (E2, 2 * (n - 1) + 1)):
+            b = CellBasis(m, getattr(skfem, name)())
+            want = int(np.prod([pts - 1 if d_ in per else pts for d_ in range(dim)]))       # nodes of the glued tensor grid
+            used = np.unique(b.element_dofs)
+            if b.N != want or len(used) != b.N or used[0] != 0 or used[-1] != b.N - 1:
+                ctx.fail('periodic_numbering', f'{c["cls"]} n={n} periodic={per} {name}: N={b.N}, {len(used)} numbers in use, '
+                         f'{want} nodes on the glued grid', **sig)
+                return
+            M = BilinearForm(lambda u, v, w: u * v).assemble(b)
+            if (np.diff(M.indptr) == 0).any() or abs(M.sum() - 1.0) > 1e-12:
+                ctx.fail('periodic_matrix', f'{name}: {int((np.diff(M.indptr) == 0).sum())} empty rows, entries sum to {M.sum()}', **sig)
+                return
+        return
+    from skfem.assembly.basis.composite_basis import CompositeBasis
+    mk = c['mesh']
+    m = {'line': skfem.MeshLine, 'tri': skfem.MeshTri, 'quad': skfem.MeshQuad, 'tet': skfem.MeshTet, 'hex': skfem.MeshHex}[mk]().refined(1)
+    names = {'line': ['ElementLineP1', 'ElementLineP2', 'ElementLineP0', 'ElementLineP1'],
+             'tri': ['ElementTriP1', 'ElementTriP2', 'ElementTriP0', 'ElementTriCR'],
+             'quad': ['ElementQuad1', 'ElementQuad2', 'ElementQuad0', 'ElementQuad1'],
+             'tet': ['ElementTetP1', 'ElementTetP2', 'ElementTetP0', 'ElementTetCR'],
+             'hex': ['ElementHex1', 'ElementHex2', 'ElementHex0', 'ElementHex1']}[mk][:c['nbases']]
+    bases = [CellBasis(m, getattr(skfem, nm)(), intorder=2) for nm in names]
+    cb = bases[0] * bases[1] if c['nbases'] == 2 else CompositeBasis(*bases)
+    off = np.concatenate([[0], np.cumsum([b.N for b in bases])])
+    ed = np.asarray(cb.element_dofs)
+    used = np.unique(ed)
+    if cb.N != off[-1] or len(used) != cb.N or used[0] != 0 or used[-1] != cb.N - 1:
+        ctx.fail('composite_basis_numbering', f'{names}: N={cb.N} (sum of parts {off[-1]}), {len(used)} numbers in use', **sig)
+        return
+    r0 = 0
+    for k, b in enumerate(bases):
+        blk = ed[r0:r0 + b.element_dofs.shape[0]]
+        if not np.array_equal(blk, b.element_dofs + off[k]):
+            ctx.fail('composite_basis_blocks', f'{names}: rows of component {k} are not its own numbering shifted by {off[k]}', **sig)
+            return
+        r0 += b.element_dofs.shape[0]
+
+
 PROP = Prop(
     'C04', 'DOF numbering gap-free, shared exactly along shared entities; locality of matrices',
     rule=('meshes of all classes (any numbering, holes, curved) x every registered element incl. Vector/DG/Composite '
@@ -349,5 +418,6 @@ PROP = Prop(
                  'doflocs are compared on straight-sided cells only (curved cells: the quadratic map is judged in C10)',
                  'facet bases are skipped for prisms and for ElementTriN3 (documented unsupported combinations)'],
     subs=[Sub('real', body_real, strategy=real_case, quick=1500, thorough=12000),
-          Sub('synthetic', body_synth, strategy=synth_case, quick=600, thorough=15000)],
+          Sub('synthetic', body_synth, strategy=synth_case, quick=600, thorough=15000),
+          Sub('special', body_special, cases=special_cases, max_shards=8)],
     design_ref='DESIGN.md section 6, C04')
